@@ -442,21 +442,27 @@ def r13_5(ctx: Ctx):
     ctx.floor(rid, 'final-report call sites', n, 1)
     # labels
     n2 = 0
+    # a labelled line: a call ("...".format(label, value, ...) or a printing helper f(label, value, ...)) one of
+    # whose positional arguments is the label text; the remaining positional arguments are what it prints
     for node in ast.walk(pr.node):
-        if isinstance(node, ast.Call) and isinstance(node.func, ast.Name) and node.func.id == 'print' and node.args:
-            a = node.args[0]
-            if isinstance(a, ast.Call) and isinstance(a.func, ast.Attribute) and a.func.attr == 'format' and \
-                    len(a.args) >= 2 and isinstance(a.args[0], ast.Constant) and isinstance(a.args[0].value, str):
-                label = a.args[0].value.lower()
-                for kw, pname in LABELS:
-                    if kw in label:
-                        n2 += 1
-                        used = {x.id for x in ast.walk(a.args[1]) if isinstance(x, ast.Name)}
-                        ctx.check(pname in used and not (used & {p for _, p in LABELS if p != pname}), rid, pr.short,
-                                  pr.loc(node), f'line "{a.args[0].value.strip()}" prints {pname}',
-                                  f'the report line "{a.args[0].value.strip()}" prints {sorted(used)}, not {pname}',
-                                  key=f'{rid}::{pr.short}::label::{kw}')
-                        break
+        if not (isinstance(node, ast.Call) and len(node.args) >= 2):
+            continue
+        lab = [a for a in node.args if isinstance(a, ast.Constant) and isinstance(a.value, str)]
+        if len(lab) != 1:
+            continue
+        label = lab[0].value.lower()
+        rest = [a for a in node.args if a is not lab[0]]
+        for kw, pname in LABELS:
+            if kw in label:
+                n2 += 1
+                used = set()
+                for r_ in rest:
+                    used |= {x.id for x in ast.walk(r_) if isinstance(x, ast.Name)}
+                ctx.check(pname in used and not (used & {p for _, p in LABELS if p != pname}), rid, pr.short,
+                          pr.loc(node), f'line "{lab[0].value.strip()}" prints {pname}',
+                          f'the report line "{lab[0].value.strip()}" prints {sorted(used)}, not {pname}',
+                          key=f'{rid}::{pr.short}::label::{kw}')
+                break
     ctx.floor(rid, 'labelled lines of the final report', n2, 6)
 
 
